@@ -68,7 +68,8 @@ REQUIRED = ['set_ops', 'model_checks', 'get_after_set_checks', 'frame_checks',
             'multiget_checks', 'apply_checks', 'fresh_path_ops', 'nested_creation_ops',
             'append_ops', 'skip_ops', 'self_ops', 'literal_reads', 'multikey_ops',
             'update_ops', 'or_ops', 'view_merge_ops', 'array_element_ops',
-            'tuple_node_ops', 'error_nonmutation_checks', 'allpaths_ops']
+            'tuple_node_ops', 'error_nonmutation_checks', 'allpaths_ops', 'alias_ops',
+            'aliased_tree_iter_checks']
 EXHAUSTIVE = {'quick': False, 'thorough': False}
 
 KEYS = ['a', 'b', 'c', 'd', 'e', 'f', 'model', 'pred', 0, 1, 2, 7]
@@ -91,6 +92,7 @@ class Gen:
     self.rng = rng
     self.prof = prof
     self.n = 1000
+    self.alias_base = None
 
   def uid(self):
     self.n += 1
@@ -137,7 +139,11 @@ class Gen:
       nchild = 0
     kids = []
     for _ in range(nchild):
-      if depth > 1 and rng.random() < 0.55:
+      prev = [k for k in kids if type(k) in (dict, list, tuple) and k]
+      if prev and rng.random() < 0.12:
+        # The same container object under two positions (a repeated row).
+        kids.append(rng.choice(prev))
+      elif depth > 1 and rng.random() < 0.55:
         kids.append(self.container(depth - 1))
       else:
         kids.append(self.leaf())
@@ -216,6 +222,21 @@ class Gen:
         return None
       p, n = rng.choice(ns)
       return {'steps': p, 'value': n, 'cls': cls}
+    if cls == 'alias':
+      # A non-empty container read from one path is set under another path: the
+      # same object is then reachable twice.
+      # The source is read from the tree the whole operation starts from (not
+      # from the partially updated tree of a multi-key operation).
+      base = self.alias_base if self.alias_base is not None else tree
+      srcs = [(p, n) for p, n in m.nodes(base)
+              if m.is_branch(n) and len(m.leaves(n)) <= 10]
+      if not srcs or len(m.leaves(tree)) > 60:
+        return None
+      it = self.item(tree, rng.choice(['newkey', 'append', 'leaf']))
+      if it is None:
+        return None
+      it['alias_src'], it['value'] = rng.choice(srcs)
+      return it
     raise ValueError(cls)
 
   def any_item(self, tree, classes):
@@ -230,7 +251,7 @@ class Gen:
 
 
 ITEM_CLASSES = ['leaf', 'leaf', 'node', 'newkey', 'newkey', 'append', 'append',
-                'arrelem']
+                'arrelem', 'alias']
 SINGLE_FORMS = ['set_key', 'set_key', 'set_scalar', 'set_multi1', 'update_dict',
                 'or_dict', 'update_pairs']
 MULTI_FORMS = ['set_multi', 'set_multi', 'update_dict', 'or_dict', 'update_pairs']
@@ -239,6 +260,7 @@ MULTI_FORMS = ['set_multi', 'set_multi', 'update_dict', 'or_dict', 'update_pairs
 def gen_op(g, tree):
   """Draws one operation against model state `tree`; returns the op dict."""
   rng = g.rng
+  g.alias_base = tree
   r = rng.random()
   if r < 0.05:
     return _finish(g, tree, {'form': rng.choice(['skip', 'skip_multi']), 'items': [],
@@ -434,6 +456,9 @@ class Run:
       for it in op['items']:
         if it['cls'] == 'current':
           it['value'] = m.m_get(prev_data, it['steps'])
+        if 'alias_src' in it:
+          # The very object found under the source path of the actual tree.
+          it['value'] = m.m_get(prev_data, it['alias_src'])
         expected = m.m_set(expected, it['steps'], it['value'], fresh)
     except Exception as e:  # pylint: disable=broad-exception-caught
       ctx.inconclusive_case(f'model could not follow the actual tree: {e!r}', self.case)
@@ -538,6 +563,8 @@ class Run:
         ctx.count('append_ops')
       if cls in ('arrelem', 'arrelem_current'):
         ctx.count('array_element_ops')
+      if 'alias_src' in it:
+        ctx.count('alias_ops')
     if op['items'] and _passes_tuple(prev_data, op['items'][0]['steps']):
       ctx.count('tuple_node_ops')
     if form in ('skip', 'skip_multi') or 'skip_at' in op:
@@ -558,6 +585,9 @@ class Run:
     from ml_metrics._src.chainables import tree as tl
     ctx = self.ctx
     ctx.count('iter_checks')
+    conts = [id(c) for _, c in m.containers(data) if c]
+    if len(set(conts)) != len(conts):
+      ctx.count('aliased_tree_iter_checks')
     mine = {tuple(k for _, k in p): leaf for p, leaf in m.leaves(data)}
     view = tl.TreeMapView(data)
     try:
